@@ -1372,7 +1372,7 @@ class RTCSctpTransport(AsyncIOEventEmitter):
                 # close data channel
                 channel = self._data_channels.get(stream_id)
                 if channel:
-                    self._data_channel_close(channel)
+                    self._data_channel_close(channel, remote=True)
 
             # send response
             response_param = StreamResetResponseParam(
@@ -1766,11 +1766,24 @@ class RTCSctpTransport(AsyncIOEventEmitter):
             self._srtt = (1 - SCTP_RTO_ALPHA) * self._srtt + SCTP_RTO_ALPHA * R
         self._rto = max(SCTP_RTO_MIN, min(self._srtt + 4 * self._rttvar, SCTP_RTO_MAX))
 
-    def _data_channel_close(self, channel: RTCDataChannel) -> None:
+    def _data_channel_close(
+        self, channel: RTCDataChannel, remote: bool = False
+    ) -> None:
         """
         Request closing the datachannel by sending an Outgoing Stream Reset Request.
         """
-        if channel.readyState not in ["closing", "closed"]:
+        if (
+            remote
+            and channel.readyState == "closing"
+            and (channel, WEBRTC_DCEP, b"") in self._data_channel_queue
+        ):
+            # our own close() was waiting for queued messages and the peer has
+            # closed its end meanwhile
+            self._data_channel_discard_queued(channel)
+            self._reconfig_queue.append(channel.id)
+            if len(self._reconfig_queue) == 1:
+                asyncio.ensure_future(self._transmit_reconfig())
+        elif channel.readyState not in ["closing", "closed"]:
             channel._setReadyState("closing")
 
             if (
@@ -1778,10 +1791,16 @@ class RTCSctpTransport(AsyncIOEventEmitter):
                 and channel.id is not None
             ):
                 if any(item[0] == channel for item in self._data_channel_queue):
-                    # messages of this channel are still waiting to be handed
-                    # to the association, the stream is reset once they are
-                    self._data_channel_queue.append((channel, WEBRTC_DCEP, b""))
-                    return
+                    if remote:
+                        # the peer has closed its end, what is still waiting
+                        # to be sent could not be delivered any more
+                        self._data_channel_discard_queued(channel)
+                    else:
+                        # messages of this channel are still waiting to be
+                        # handed to the association, the stream is reset once
+                        # they are
+                        self._data_channel_queue.append((channel, WEBRTC_DCEP, b""))
+                        return
 
                 # queue a stream reset
                 self._reconfig_queue.append(channel.id)
@@ -1799,6 +1818,15 @@ class RTCSctpTransport(AsyncIOEventEmitter):
                 if channel.id is not None:
                     self._data_channels.pop(channel.id)
                 channel._setReadyState("closed")
+
+    def _data_channel_discard_queued(self, channel: RTCDataChannel) -> None:
+        kept: DataChannelQueue = deque()
+        for item in self._data_channel_queue:
+            if item[0] != channel:
+                kept.append(item)
+            elif item[1] != WEBRTC_DCEP:
+                channel._addBufferedAmount(-len(item[2]))
+        self._data_channel_queue = kept
 
     def _data_channel_closed(self, stream_id: int) -> None:
         channel = self._data_channels.pop(stream_id)
